@@ -106,10 +106,12 @@ CLAIMED = {
             "SubsequenceSearch.align hand-modelled; contracts lb<=dist (C09) and bounded distance (C03) are inputs",
             "Coq proof (invariant over the candidate fold) + history correspondence"),
     "C15": ("Coq theorems for every choice/orientation policy: merge distances non-decreasing and <= max_dist, stop only "
-            "when nothing within max_dist is left, absorbed series never reused, at most n-1 merges; exact merge "
-            "sequence vs extracted model, partition/prototype/tree/SciPy linkage checked on the implementation",
-            "partial: partition and tree shape are checked on the implementation, SciPy trusted",
-            "Coq proof (abstract policy) + correspondence + postcondition checker"),
+            "when nothing within max_dist is left, absorbed series never reused, at most n-1 merges, the merges are well "
+            "formed; C15_clusters_partition / C15_fit_partitions: the cluster dictionary as fit builds it partitions all "
+            "series, keys are never-absorbed series contained in their own cluster; exact merge sequence and resulting "
+            "dictionary vs the extracted models, tree/SciPy linkage checked on the implementation",
+            "partial: tree shape is checked on the implementation, SciPy trusted",
+            "Coq proof (abstract policy + dictionary as written) + correspondence + postcondition checker"),
     "C13": ("Coq theorems: with free start/end psi the last-row value at end e is a lower bound of the penalised DTW cost "
             "of the query against series[b..e] for every start b (shift lemma) and is attained by a path starting at the "
             "top border (cell-wise optimality); C13_kbest_iterator / _no_overlap_one_shared_sample / _kbest_terminates: "
